@@ -1,6 +1,6 @@
 From Coq Require Import Extraction ExtrOcamlBasic.
 From Common Require Import Conv.
-From C08 Require Import Model ModelCD ModelLL ModelSub ModelSub2 ModelFL ModelGDEF.
+From C08 Require Import Model ModelCD ModelLL ModelSub ModelSub2 ModelFL ModelGDEF ModelSL.
 Extraction "c08_model.ml" conv_anchor M_cov_read M_cov_encode M_cov_encode_len
   M_cd_append M_cd_append_len M_cd_read
   M_ll_encode M_ll_read M_find_ext
@@ -10,4 +10,5 @@ Extraction "c08_model.ml" conv_anchor M_cov_read M_cov_encode M_cov_encode_len
   M_sub_read as_table S_cov_table
   M_fl_encode M_fl_read
   M_gpos21_len M_gpos21_encode M_sub_read2
-  M_gdef_encode M_gdef_read.
+  M_gdef_encode M_gdef_read
+  M_sl_encode M_sl_read.
